@@ -29,7 +29,7 @@ impl SPCR<'_> {
     pub fn sbi(oem_id: [u8; 6], oem_table_id: [u8; 8], oem_revision: u32) -> Self {
         let mut header = TableHeader {
             signature: *b"SPCR",
-            length: (TableHeader::len() as u32).into(),
+            length: ((TableHeader::len() + SerialPortInfo::len() + EMPTY_NAMESPACE.len()) as u32).into(),
             revision: 4,
             checksum: 0,
             oem_id,
@@ -157,7 +157,8 @@ impl SerialPortInfo {
             clock_frequency: 0.into(),
             precise_baud: 0.into(),
             namespace_string_len: 2.into(),
-            namespace_string_offset: (Self::len() as u16).into(),
+            // Offset of the namespace string from the start of the table
+            namespace_string_offset: ((TableHeader::len() + Self::len()) as u16).into(),
         }
     }
 }
